@@ -446,6 +446,36 @@ def numeric_splice_probes():
     return out
 
 
+def rule_name_identifier_probes():
+    """Identifiers that coincide with the grammar's own rule names
+    (ReactantName, AtomLabel, FragmentName, ...), as fragment / reactant /
+    rule names and as labels, also in 'duplicates' and 'group' clauses, with
+    later edits on the mapped labels."""
+    names = ['ReactantName', 'AtomLabel', 'FragmentName', 'GroupName',
+             'RuleName', 'LabelMapping', 'Symbols', 'AtomType', 'BondType',
+             'Prefix', 'MolQuery', 'Fragment', 'ReactionRule', 'RINGInput',
+             'Boolean', 'Number', 'r', 'X']
+    out = []
+    for n in names:
+        out.append('fragment %s{C labeled c1}' % n)
+        out.append('fragment a{C labeled %s O labeled o1 single bond to %s}'
+                   % (n, n))
+        out.append('rule %s{reactant %s{C labeled c1 H labeled h1 single '
+                   'bond to c1} break bond (c1,h1) increase number of radical '
+                   '(c1) increase number of radical (h1)}' % (n, n))
+        for other in ('X', 'XY', 'second', n):
+            for edit in ('increase number of radical (c2) decrease number of '
+                         'radical (c2)', 'increase formal charge (c2)',
+                         'modify atomtype (c2, C.)',
+                         'decrease number of radical (c1)', ''):
+                out.append('rule r{reactant %s{C labeled c1} reactant %s '
+                           'duplicates %s (c1 => c2) %s}' % (n, other, n,
+                                                             edit))
+                out.append('rule r{reactant %s{C labeled c1} reactant %s '
+                           'group %s (c1 => c2) %s}' % (n, other, n, edit))
+    return out
+
+
 def valid_corpus(ctx, rng, n):
     out = []
     for _ in range(n):
@@ -509,6 +539,9 @@ def run_shard(ctx):
         if ctx.mine(i):
             check_text(ctx, t, 'numeral with a non-ASCII digit / of absurd '
                                'length')
+    for i, t in enumerate(rule_name_identifier_probes()):
+        if ctx.mine(i):
+            check_text(ctx, t, 'grammar rule names as identifiers')
     sp = stereo_statement_probes()
     for i, t in enumerate(sp):
         if ctx.mine(i) and (not q or i % 3 == ctx.seed % 3):
